@@ -320,7 +320,9 @@ def check_numbers(rec, m, spec, t, d):
   rec.case('to_numbers-flat/roundtrip', key, ok, msg, wit(
       m, base + 'assert D.from_numbers(d.to_numbers(), spec) == d'))
   if back is not None and ok:
-    check_alignment(rec, m, spec, t, back, 'from_numbers', base +
+    # a constant root space is its own input class (`spec=` is not honoured)
+    check_alignment(rec, m, spec, t, back, 'from_numbers' + (
+        '[constant-root-space]' if m == C else ''), base +
                     'x = D.from_numbers(d.to_numbers(), spec)\n')
   # nested
   cls = 'chain-depth>=3' if chain_depth3(t) else 'depth<3'
